@@ -5,6 +5,7 @@ import (
 	"errors"
 	"fmt"
 	"os"
+	"sort"
 	"strings"
 	"sync"
 	"time"
@@ -240,23 +241,37 @@ func (hc *HistCheck) finish(t ev.Timer, total *explore.Stats, reports []LayerRep
 	if len(samples) == 0 {
 		samples = append(samples, "(no legal history executed)")
 	}
+	// every outcome class in which an operation of the closing oracle failed, however rare (top_outcomes only shows
+	// the most frequent ones): a failing closing sync must be explainable by the history, see DESIGN §10.16
+	var errOutcomes []string
+	for o, n := range total.Outcomes {
+		lo := strings.ToLower(o)
+		if strings.Contains(lo, "err:") || strings.Contains(lo, "failed") {
+			errOutcomes = append(errOutcomes, fmt.Sprintf("%s ×%d", o, n))
+		}
+	}
+	sort.Strings(errOutcomes)
+	if len(errOutcomes) > 40 {
+		errOutcomes = errOutcomes[:40]
+	}
 	e := &ev.Evidence{
 		PropertyID: hc.ID, Tier: ev.Tier(), Seed: ev.Seed(), Level: hc.Level, WallS: t.S(),
 		Violations:  hc.rep.Unknown(),
 		Assumptions: assumptions,
 		Coverage: map[string]any{
-			"states":                        maxInt(total.States, 1),
-			"transitions":                   maxInt64(total.Transitions, 1),
-			"traces_validated_against_impl": total.LegalRuns,
-			"samples":                       samples,
-			"evaluations":                   total.Runs,
-			"distinct_nontrivial":           total.DistinctOutcome,
-			"rule":                          rule,
-			"exhaustive":                    total.Exhaustive,
-			"cap_hit":                       total.CapHit,
-			"layers":                        reports,
-			"known_finding_reproductions":   hc.rep.KnownCount(),
-			"top_outcomes":                  total.OutcomeList(12),
+			"states":                          maxInt(total.States, 1),
+			"transitions":                     maxInt64(total.Transitions, 1),
+			"traces_validated_against_impl":   total.LegalRuns,
+			"samples":                         samples,
+			"evaluations":                     total.Runs,
+			"distinct_nontrivial":             total.DistinctOutcome,
+			"rule":                            rule,
+			"exhaustive":                      total.Exhaustive,
+			"cap_hit":                         total.CapHit,
+			"layers":                          reports,
+			"known_finding_reproductions":     hc.rep.KnownCount(),
+			"top_outcomes":                    total.OutcomeList(12),
+			"outcomes_with_failed_operations": errOutcomes,
 		},
 	}
 	for k, v := range hc.ExtraCoverage {
